@@ -101,6 +101,11 @@ EXTRA = [
       requires_layers=["RESHAPE"],
       what="same root cause as F03: the binary elementwise operator's IFM2 no longer broadcasts against the reshaped OFM and generate_ifm2_broadcast asserts",
       example="findings/F03-reshape-folded-into-producer.C13.json"),
+ dict(id="F19-non-default-allocator-exceeds-arena-cache", property="C02", status="known",
+      signature={"oracle": "fast_scratch_exceeds_arena_cache", "rounding_only": False, "min_schedule_also_exceeds": False},
+      requires_any=["OPT_ALLOC_Greedy", "OPT_ALLOC_LinearAlloc"],
+      what="Dedicated_Sram with --tensor-allocator Greedy or LinearAlloc: the scheduler plans against the arena cache size with its own (hill-climb like) estimate, the chosen allocator then needs more, and the output is published with a fast-scratch tensor larger than the configured cache after only 'Warning: SRAM target for arena memory area exceeded' (compiler_driver._check_schedule); accesses beyond the cache are rejected by check_mem_limits, a larger published extent is not (e.g. cache 8192, Greedy publishes 8240, HillClimb 7488)",
+      example="findings/F19-non-default-allocator-exceeds-arena-cache.C02.json"),
  dict(id="F10-fast-scratch-rounded-past-cache", property="C02", status="known",
       signature={"oracle": "fast_scratch_exceeds_arena_cache", "rounding_only": True},
       what="--arena-cache-size that is not a multiple of 16 in a Dedicated_Sram mode: the allocator keeps the fast scratch within the limit but the published tensor size is rounded up to the next multiple of 16, i.e. up to 15 bytes past the configured cache size",
